@@ -4,6 +4,7 @@ From Coq Require Import ZArith Bool List.
 From HV Require Import Ord Select SelectFacts Hist HistFacts Pop PopFacts.
 From HV Require Import GenPop GenEquivPop.
 From HV Require Import RealTraces.
+From HV Require Import Ctor GenCtor GenEquivCtor.
 Import ListNotations.
 
 (* every stored individual (and every seed) names an evaluation in the log that was made for exactly its genome and returned
@@ -73,3 +74,29 @@ Theorem C02_translated_update_genome {G} (geq : G -> G -> bool) (p : popo (G:=G)
   rows_o (gen_update_genome geq p new) = update_genome geq (rows_o p) new.
 Proof. exact (update_genome_rows geq p new). Qed.
 Print Assumptions C02_translated_update_genome.
+
+(* ---------------------------------------------------------------- the same for the TRANSLATED constructors.
+   Gen/GenCtor.v is regenerated on every check from AbstractDeme.__init__, the __init__ of EADeme, DEDeme, SHADEDeme, CMADeme, LocalDeme,
+   LHSDeme, SobolDeme (+ the run() the two samplers call), Individual.__init__ / evaluate / evaluate_population / create_population,
+   init_from_config and DemeTree.__init__ (hv/translate/ctor_py.py); `ctor_ok lvl started local o pop`: the constructor built the deme
+   `fresh_deme lvl started n` the machine's sprouting step assumes, its history holding exactly the start population pop. *)
+(* every individual a constructor stores in the history carries a fitness (computed by evaluate(): only where none was present) *)
+Theorem C02_translated_ctor_population_evaluated lvl started seed pop_size : 1 <= pop_size ->
+  (exists p, start_population (gen_EADeme_init pop_size (gen_init_args lvl started seed)) = Some p /\ forallb s_fit p = true) /\
+  (exists p, start_population (gen_DEDeme_init pop_size (gen_init_args lvl started seed)) = Some p /\ forallb s_fit p = true) /\
+  (exists p, start_population (gen_SHADEDeme_init pop_size (gen_init_args lvl started seed)) = Some p /\ forallb s_fit p = true) /\
+  (exists p, start_population (gen_CMADeme_init pop_size (gen_init_args lvl started seed)) = Some p /\ forallb s_fit p = true) /\
+  (exists p, start_population (gen_LHSDeme_init pop_size (gen_init_args lvl started seed)) = Some p /\ forallb s_fit p = true) /\
+  (exists p, start_population (gen_SobolDeme_init pop_size (gen_init_args lvl started seed)) = Some p /\ forallb s_fit p = true) /\
+  (exists p, start_population (gen_LocalDeme_init (gen_init_args lvl started seed)) = Some p /\ forallb s_fit p = true).
+Proof.
+  intros H. repeat split.
+  - destruct (EADeme_ctor_ok lvl started seed pop_size H) as (_ & A & B). eauto.
+  - destruct (DEDeme_ctor_ok lvl started seed pop_size H) as (_ & A & B). eauto.
+  - destruct (SHADEDeme_ctor_ok lvl started seed pop_size H) as (_ & A & B). eauto.
+  - destruct (CMADeme_ctor_ok lvl started seed pop_size) as (_ & A & B). eauto.
+  - destruct (LHSDeme_ctor_ok lvl started seed pop_size) as (_ & A & B). eauto.
+  - destruct (SobolDeme_ctor_ok lvl started seed pop_size) as (_ & A & B). eauto.
+  - destruct (LocalDeme_ctor_ok lvl started seed) as (_ & A & B). eauto.
+Qed.
+Print Assumptions C02_translated_ctor_population_evaluated.
